@@ -65,6 +65,12 @@ func (p *PaymentDetails) totalAdvance(zero num.Amount) *num.Amount {
 	}
 	sum := zero
 	for _, a := range p.Advances {
+		if a.Percent == nil {
+			// a fixed amount is input data: bring it to the precision it is going
+			// to be presented with before using it, so that calculating the result
+			// again is a no-op
+			a.Amount = a.Amount.Rescale(zero.Exp())
+		}
 		sum = sum.MatchPrecision(a.Amount)
 		sum = sum.Add(a.Amount)
 		a.Amount = a.Amount.Rescale(zero.Exp())
